@@ -371,6 +371,20 @@ def check(run):
                         run.violation(dict(key, outcome='chi2', cycle=min(cyc, 2)), 'chi2 %r before export, %r after import (cycle %d)' % (chi0, chi2, cyc), dict(abstract=c['g']))
                         break
                 gk = g2
+                if n % 3 == 2 and cyc == 1:
+                    # History: an offset of the RE-IMPORTED graph is re-calibrated in place (the edge's offset is the registered parameter's pose);
+                    # the next export must carry the new value
+                    for e in g2._edges:
+                        if getattr(e, 'offset', None) is not None and len(np.asarray(e.offset)) == 7:
+                            e.offset[0] = float(e.offset[0]) + 0.5 if abs(float(e.offset[0])) < 1e15 else 0.25
+                            stats['offsets_edited_after_import'] = stats.get('offsets_edited_after_import', 0) + 1
+                            chi0 = None          # (chi^2 changed with the offset: compared again from the next cycle on)
+                            try:
+                                chi0 = float(g2.calc_chi2())
+                            except Exception:  # noqa
+                                pass
+                            g = g2
+                            break
                 path = os.path.join(tmpdir, 'g%d_%d.g2o' % (n, cyc))
                 g2.to_g2o(path)
             # History: an export after the graph changed must reflect the CURRENT numbers (no stale text), and a re-import from a path that was
